@@ -299,6 +299,13 @@ class Check:
         self.stageA = a
         for p in a["problems"]:
             self.obligation_broken(p)
+        if self.tier == "thorough" and a["ok"]:
+            # independent re-check of the compiled property module by the toolchain's stand-alone checker
+            with LeanLock():
+                r = sh(["lake", "env", "leanchecker", "XfemmVerif.Properties." + self.id], cwd=LEAN)
+            self.notes["leanchecker"] = "accepted" if r.returncode == 0 else "REJECTED"
+            if r.returncode != 0:
+                self.obligation_broken("leanchecker rejects XfemmVerif.Properties.%s: %s" % (self.id, r.stdout[-400:]))
         return a
 
     # -- finishing
